@@ -5,7 +5,7 @@
    p = precision, s = scale, i = unscaled integer (the decimal's value is i / 10^s). *)
 From Coq Require Import ZArith List Bool QArith.
 Import ListNotations.
-From V Require Import Base.Tree Base.Bytes C16.Model C16.Spec C16.Digits C16.ProofsParse C16.ProofsString C16.ProofsRun.
+From V Require Import Base.Tree Base.Bytes C16.Model C16.Spec C16.Digits C16.ProofsParse C16.ProofsString C16.ProofsRun C16.ProofsHist.
 Open Scope Z_scope.
 
 (* (1) Round trip: for every precision >= 1 (in particular 1..38), every scale up to the precision and every
@@ -98,7 +98,61 @@ Proof. exact sanity_valid. Qed.
 Theorem C16_spec_of_model : forall fn i, 1 <= fn <= 4 -> spec fn i (run fn i) = true.
 Proof. exact spec_run. Qed.
 
+(* (8) Histories on ONE decimal object (Model.step: String, SetString, SetInt64, SetBytes, Negate, direct assignment of
+   the exported fields Precision / Scale, read accessors; states = the successive states, trace = what is recorded
+   after every operation).  The object has no state besides (precision, scale, integer): after ANY history from ANY
+   starting state the fields read back are the current state and the text is state_string of the current state ... *)
+Theorem C16_history_trace : forall st ops,
+  map rec_fields (trace st ops) = map state_fields (states st ops) /\
+  map (t_nth 4) (trace st ops) = map state_string (states st ops).
+Proof. intros st ops. split; [apply trace_fields|apply trace_text]. Qed.
+(* ... and whenever the current state is inside the property (valid scale/precision, at most precision digits) the
+   recorded text is dec_string of the CURRENT precision, scale and integer, has the regular shape, denotes exactly
+   integer / 10^scale and parses back to the same integer -- no matter which calls and assignments came before. *)
+Theorem C16_history_text : forall st0 ops k st r i,
+  nth_error (states st0 ops) k = Some st -> nth_error (trace st0 ops) k = Some r ->
+  dval st = Some i -> 0 <= dscale st <= dprec st -> Z.abs i < 10 ^ dprec st ->
+  rec_fields r = state_fields st /\
+  t_nth 4 r = TB (dec_string (dprec st) (dscale st) i) /\
+  shape_ok (dec_string (dprec st) (dscale st) i) = true /\
+  value_is (dec_string (dprec st) (dscale st) i) i (dscale st) = true /\
+  set_string (dprec st) (dscale st) (dec_string (dprec st) (dscale st) i) = Ok i.
+Proof. exact history_property. Qed.
+(* formatting and reading change nothing; assignments change exactly the assigned field *)
+Theorem C16_history_readonly : forall st, next st OString = st /\ next st ORead = st.
+Proof. exact next_readonly. Qed.
+Theorem C16_history_assign : forall st p s,
+  next st (OPrec p) = mk_dstate p (dscale st) (dval st) /\
+  next st (OScale s) = mk_dstate (dprec st) s (dval st) /\
+  next st (OBoth p s) = mk_dstate p s (dval st).
+Proof. exact next_assign. Qed.
+(* the specification predicate for histories (Spec.hist_ok: judges every step from the documented meaning of the
+   operations and the property, independently of Model.step) accepts the model's trace of every well-formed history *)
+Theorem C16_history_spec_of_model : forall i, wf_hist i -> spec 5 i (run 5 i) = true.
+Proof. exact spec_run_5. Qed.
+
 (* non-vacuity and corner cases *)
+(* NewDecimal(18,0); SetInt64(12345); String; Precision, Scale = 10, 2; String: "12345.0" then "123.45" *)
+Example C16_ex_history :
+  map (t_nth 4) (trace (mk_dstate 18 0 (Some 0)) [OSetInt64 12345; OString; OBoth 10 2; OString])
+  = [TB [49; 50; 51; 52; 53; 46; 48]; TB [49; 50; 51; 52; 53; 46; 48]; TB [49; 50; 51; 46; 52; 53]; TB [49; 50; 51; 46; 52; 53]]
+  /\ states (mk_dstate 18 0 (Some 0)) [OSetInt64 12345; OString; OBoth 10 2; OString]
+  = [mk_dstate 18 0 (Some 12345); mk_dstate 18 0 (Some 12345); mk_dstate 10 2 (Some 12345); mk_dstate 10 2 (Some 12345)].
+Proof. vm_compute. split; reflexivity. Qed.
+(* the specification rejects the stale text: after the assignment the object reports (10, 2, 12345) but still prints "12345.0" *)
+Example C16_ex_history_stale :
+  spec 5 (TL [TI 0; TI 18; TI 0; TL [TL [TI 2; TI 12345]; TL [TI 0]; TL [TI 7; TI 10; TI 2]]])
+         (TL [TI 0; TL [TL [TI 0; TI 18; TI 0; TI 12345; TB [49; 50; 51; 52; 53; 46; 48]; TI 1];
+                        TL [TB [49; 50; 51; 52; 53; 46; 48]; TI 18; TI 0; TI 12345; TB [49; 50; 51; 52; 53; 46; 48]; TI 1];
+                        TL [TI 0; TI 10; TI 2; TI 12345; TB [49; 50; 51; 52; 53; 46; 48]; TI 0]]]) = false
+  /\ wf_hist (TL [TI 0; TI 18; TI 0; TL [TL [TI 2; TI 12345]; TL [TI 0]; TL [TI 7; TI 10; TI 2]]]).
+Proof. split; [vm_compute; reflexivity|]. split; [left; reflexivity|]. vm_compute. intros [H|[H|[H|H]]]; (discriminate H || exact H). Qed.
+(* a struct literal has no integer: it prints "<nil>" until SetString gives it one; scale > precision makes String panic *)
+Example C16_ex_history_nil :
+  map (t_nth 4) (trace (mk_dstate 5 2 None) [OString; OSetString [49; 46; 53]; OScale 6])
+  = [TB [60; 110; 105; 108; 62]; TB [49; 46; 53]; TI (-1)].
+Proof. vm_compute. reflexivity. Qed.
+
 Example C16_ex_string : dec_string 5 2 (-12345) = [45; 49; 50; 51; 46; 52; 53]            (* "-123.45" *)
   /\ dec_string 5 0 5 = [53; 46; 48] /\ dec_string 5 5 (-5) = [45; 48; 46; 48; 48; 48; 48; 53]  (* "5.0", "-0.00005" *)
   /\ dec_string 38 19 (10 ^ 38 - 1) = repeat 57 19 ++ [46] ++ repeat 57 19.
@@ -136,3 +190,8 @@ Print Assumptions C16_two_points.
 Print Assumptions C16_sanity.
 Print Assumptions C16_sanity_spec.
 Print Assumptions C16_spec_of_model.
+Print Assumptions C16_history_trace.
+Print Assumptions C16_history_text.
+Print Assumptions C16_history_readonly.
+Print Assumptions C16_history_assign.
+Print Assumptions C16_history_spec_of_model.
